@@ -292,3 +292,30 @@ example : ensureNoAmbiguous "select id, other".toList ["x".toList, "id".toList] 
 example : (ensureNoAmbiguous "select a.id".toList ["id".toList] ["k".toList]).isOk = true := by decide
 
 end Rbql
+
+namespace Rbql
+
+/-- **direct mode: the header wins.** With `normalize_column_names = False` the bare name of column `i` is bound to column `i` whatever
+the positional passes put into the map before — also when the name LOOKS like a positional variable (`a2` as the name of the first
+column): `get_variables_map` runs the header pass last. (The seeded change that ran the header pass first broke exactly this.) -/
+theorem C09_direct_name_wins_over_positional (js : Bool) (query : Str) (pfx : Char) (names : List Str) (w : Option Nat)
+    (hw : ∀ k, w = some k → k = names.length)
+    (hd : names.Nodup) (hid : ∀ n ∈ names, isIdentifierName n = true) (i : Nat) (hi : i < names.length)
+    (hocc : occursIn names[i] query = true) :
+    ∃ m', tableVariablesMap js query pfx (some names) false w = .ok m' ∧ m'.get? names[i] = some { init := true, index := i } := by
+  obtain ⟨m', hm, hg⟩ := C09_direct_variable_bound query names (positionalVars (!js) pfx query []) hd hid i hi hocc
+  refine ⟨m', ?_, hg⟩
+  unfold tableVariablesMap
+  cases w with
+  | none => simp [hm]
+  | some k =>
+    have hk := hw k rfl
+    subst hk
+    simp [hm]
+
+/-- non-vacuity: a header made of positional-looking names, addressed in direct mode -/
+example : (tableVariablesMap false "select a2, a1".toList 'a' (some ["a2".toList, "a3".toList, "a1".toList]) false (some 3)).toOption.map
+      (fun m => (m.get? "a2".toList, m.get? "a1".toList, m.get? "a3".toList)) =
+    some (some ⟨true, 0⟩, some ⟨true, 2⟩, none) := by decide
+
+end Rbql
